@@ -99,11 +99,17 @@ let () =
       let add s = fails := s :: !fails in
       let script_fine = lines_script_ok la lb ds in
       if not script_fine then begin
-        if not (canonical ds) then add "shape: an empty run, a deletion after a deletion/insertion or an insertion after an insertion"
-        else if int_of_nat (old_total ds) <> nla || int_of_nat (new_total ds) <> nlb then
+        if not (canonical ds) then add "shape: an empty run, a deletion after a deletion/insertion or an insertion after an insertion";
+        if int_of_nat (old_total ds) <> nla || int_of_nat (new_total ds) <> nlb then
           add (Printf.sprintf "totals: equal+delete=%d for %d old lines, equal+insert=%d for %d new lines"
                  (int_of_nat (old_total ds)) nla (int_of_nat (new_total ds)) nlb)
-        else add "an equal run covers lines that differ between the two versions"
+        else begin
+          (* are the equal runs right once empty runs are dropped?  (canonical + totals fine + validator says no
+             = an equal run over different lines, by C11_script_ok_iff) *)
+          let ds' = List.filter (fun (_, n) -> n <> O) ds in
+          if canonical ds' && not (lines_script_ok la lb ds') then
+            add "an equal run covers lines that differ between the two versions"
+        end
       end;
       let cnt_bad = gcla <> string_of_int gold || gclb <> string_of_int gnew in
       if cnt_bad then add (Printf.sprintf "line counts: OldLinesOfCode=%d CountLines(old)=%s NewLinesOfCode=%d CountLines(new)=%s" gold gcla gnew gclb);
